@@ -14,7 +14,8 @@ from vlib import core, modbuild, gen
 
 RULE = ("case = (signature, kind ffi.callback|extern \"Python\", scenario, argument tuple); "
         "signatures over all integer sizes/signs, _Bool, char, float, double, pointers, struct by "
-        "value (args and result), void result; scenarios = {normal, raises, bad-return} x {no "
+        "value (args and result; 2/8/16/40-byte structs of INTEGER, SSE and MEMORY class, unions), "
+        "long double, wchar_t, enum, void result; scenarios = {normal, raises, bad-return} x {no "
         "error value, error=v, onerror->value, onerror->None, onerror raises}; distinct = "
         "(signature, kind, scenario, values); non-trivial = at least one argument or a non-void "
         "result")
@@ -25,9 +26,26 @@ INTS = [('signed char', 1, True), ('unsigned char', 1, False), ('short', 2, True
         ('unsigned short', 2, False), ('int', 4, True), ('unsigned int', 4, False),
         ('long', 8, True), ('unsigned long long', 8, False), ('int8_t', 1, True),
         ('uint16_t', 2, False), ('int64_t', 8, True), ('size_t', 8, False)]
-ARGT = [t[0] for t in INTS] + ['_Bool', 'char', 'float', 'double', 'int *', 'struct pt']
+INTS_X = INTS + [('enum en', 4, False)]
+# aggregates passed and returned by value: (fields as (name, C type, 'i'|'f'|bytes-length))
+AGGS = {
+    'struct pt': [('a', 'int', 'i'), ('b', 'short', 'i'), ('c', 'double', 'f')],           # 16 bytes, INTEGER+SSE
+    'struct sm': [('x', 'signed char', 'i'), ('y', 'unsigned char', 'i')],                  # 2 bytes
+    'struct fl': [('f', 'float', 'f'), ('g', 'float', 'f')],                               # 8 bytes, SSE
+    'struct big': [('l0', 'long', 'i'), ('l1', 'long', 'i'), ('d', 'double', 'f'),
+                   ('l2', 'long', 'i'), ('z', 'signed char', 'i')],                        # 40 bytes, MEMORY
+    'union un': [('c', 'unsigned char', 12)],                                              # 16 bytes
+    'union u8': [('c', 'unsigned char', 8)],                                               # 8 bytes
+}
+ARGT = [t[0] for t in INTS_X] + ['_Bool', 'char', 'float', 'double', 'int *', 'long double',
+                                 'wchar_t'] + sorted(AGGS) + ['struct pt']
 RETT = ARGT + ['void']
-STRUCT = 'struct pt { int a; short b; double c; };'
+STRUCT = ('struct pt { int a; short b; double c; }; struct sm { signed char x; unsigned char y; }; '
+          'struct fl { float f; float g; }; '
+          'struct big { long l0; long l1; double d; long l2; signed char z; }; '
+          'union un { int i; double d; unsigned char c[12]; }; '
+          'union u8 { int i; float f; unsigned char c[8]; }; '
+          'enum en { EN0, EN1 = 5, EN2 = 70000, EN3 = 0xFFFFFFFF };')
 SCEN = [(b, c) for b in ('normal', 'raises', 'badreturn')
         for c in ('noerror', 'error', 'onerror_value', 'onerror_none', 'onerror_raises')]
 
@@ -44,7 +62,7 @@ def gen_sigs(seed, n):
 
 def module_spec(d, seed, n, name):
     sigs = gen_sigs(seed, n)
-    cdef, src = [STRUCT], ['#include <stdint.h>', '#include <stddef.h>', STRUCT]
+    cdef, src = [STRUCT], ['#include <stdint.h>', '#include <stddef.h>', '#include <wchar.h>', STRUCT]
     for s in sigs:
         k, R = s['k'], s['ret']
         at = ', '.join(s['args']) or 'void'
@@ -65,10 +83,27 @@ def module_spec(d, seed, n, name):
 
 def gen_val(rnd, T):
     """JSON-able value descriptor for type T (exactly representable)"""
-    for (n, size, signed) in INTS:
+    for (n, size, signed) in INTS_X:
         if T == n:
             lo, hi = gen.int_range(size, signed)
             return ['int', rnd.choice([lo, hi, 0, 1, rnd.randint(lo, hi)])]
+    if T == 'long double':
+        return ['float', rnd.choice([0.0, 1e300, -1.1, 0.5, rnd.uniform(-1e9, 1e9)]).hex()]
+    if T == 'wchar_t':
+        return ['str', rnd.choice([u'a', u'\x00', u'\xe9', u'\u1234', u'\U0001f600',
+                                   chr(rnd.randrange(32, 0xd800))])]
+    if T in AGGS and T != 'struct pt':
+        vals = []
+        for fn, ft, fk in AGGS[T]:
+            if fk == 'i':
+                size, signed = [(z, sg) for (n_, z, sg) in INTS if n_ == ft][0]
+                lo, hi = gen.int_range(size, signed)
+                vals.append(rnd.choice([lo, hi, 0, 1, rnd.randint(lo, hi)]))
+            elif fk == 'f':
+                vals.append(rnd.choice([1.5, -3.25, 0.0, 1024.0] + ([1e100] if ft == 'double' else [])))
+            else:
+                vals.append([rnd.randrange(256) for _ in range(fk)])
+        return ['struct', vals, T]
     if T == '_Bool':
         return ['bool', rnd.choice([True, False])]
     if T == 'char':
@@ -81,7 +116,7 @@ def gen_val(rnd, T):
         return ['ptr', rnd.choice([0, 8, rnd.getrandbits(47) & ~3])]
     if T == 'struct pt':
         return ['struct', [rnd.randint(-2 ** 31, 2 ** 31 - 1), rnd.randint(-2 ** 15, 2 ** 15 - 1),
-                           rnd.choice([1.5, -3.25, 1e100])]]
+                           rnd.choice([1.5, -3.25, 1e100])], T]
     raise ValueError(T)
 
 
@@ -99,6 +134,11 @@ def generate(ctx):
         plan = []
         for s in sigs:
             for kind in ('callback', 'externpy'):
+                if kind == 'callback' and any(t.startswith('union') for t in s['args'] + [s['ret']]):
+                    # ffi.callback() goes through libffi, which has no by-value unions
+                    # (documented NotImplementedError); extern "Python" supports them
+                    ctx.count('callback_signatures_with_union_skipped')
+                    continue
                 for (body, conf) in SCEN:
                     if body == 'normal' and conf != 'noerror' and rng.random() < 0.5:
                         continue
@@ -123,7 +163,9 @@ def child_setup(setup, wd):
 
 
 def to_py(ffi, d):
-    k, v = d
+    k, v = d[0], d[1]
+    if k == 'str':
+        return v
     if k == 'int' or k == 'bool':
         return v
     if k == 'bytes':
@@ -133,7 +175,8 @@ def to_py(ffi, d):
     if k == 'ptr':
         return ffi.cast('int *', v)
     if k == 'struct':
-        return ffi.new('struct pt *', v)[0]
+        T = d[2]
+        return ffi.new(T + ' *', dict((f[0], x) for f, x in zip(AGGS[T], v)))[0]
 
 
 def norm(ffi, x):
@@ -141,8 +184,11 @@ def norm(ffi, x):
         t = ffi.typeof(x)
         if t.kind == 'pointer':
             return ['ptr', int(ffi.cast('uintptr_t', x))]
-        if t.kind == 'struct':
-            return ['struct', [x.a, x.b, x.c]]
+        if t.kind in ('struct', 'union'):
+            return ['struct', [getattr(x, fn) if not isinstance(fk, int) else list(getattr(x, fn))
+                               for fn, ft, fk in AGGS[t.cname]], t.cname]
+        if t.kind == 'primitive' and t.cname == 'long double':
+            return ['float', float(x).hex()]
         return ['cdata', repr(x)]
     if isinstance(x, bool):
         return ['bool', x]
@@ -152,6 +198,8 @@ def norm(ffi, x):
         return ['float', x.hex()]
     if isinstance(x, bytes):
         return ['bytes', x.hex()]
+    if isinstance(x, str):
+        return ['str', x]
     if x is None:
         return None
     return ['other', repr(x)]
@@ -164,12 +212,15 @@ def zero_of(T):
         return ['bool', False]
     if T == 'char':
         return ['bytes', '00']
-    if T in ('float', 'double'):
+    if T in ('float', 'double', 'long double'):
         return ['float', (0.0).hex()]
     if T == 'int *':
         return ['ptr', 0]
-    if T == 'struct pt':
-        return ['struct', [0, 0, 0.0]]
+    if T == 'wchar_t':
+        return ['str', u'\x00']
+    if T in AGGS:
+        return ['struct', [0 if fk == 'i' else (0.0 if fk == 'f' else [0] * fk)
+                           for fn, ft, fk in AGGS[T]], T]
     return ['int', 0]
 
 
@@ -179,7 +230,9 @@ def same(a, b):
     if a[0] in ('int', 'bool') and b[0] in ('int', 'bool'):
         return int(a[1]) == int(b[1])
     if a[0] == 'struct' and b[0] == 'struct':
-        return list(a[1]) == list(b[1])
+        return list(a[1]) == list(b[1]) and a[2] == b[2]
+    if a[0] == 'float' and b[0] == 'float':
+        return float.fromhex(a[1]) == float.fromhex(b[1])
     return list(a) == list(b)
 
 
